@@ -618,11 +618,22 @@ pub fn class_shard(
     let (bclass, bdbg) = match &base {
         Outcome::Ok(c, d) => (c.as_ref(), d),
         Outcome::Err(e) => {
-            fail("base", format!("checked-in class does not compile: {e:?}"), "base-compile", json!({}));
+            let what = if l.from_source {
+                "CasmContractClass::from_contract_class rejects the contract class the compiler just produced"
+            } else {
+                "checked-in class does not compile"
+            };
+            fail(
+                "base",
+                format!("{what}: {e}"),
+                if l.from_source { "compiler-output-rejected" } else { "base-compile" },
+                json!({"source": l.origin, "contract": l.name,
+                       "entry_points_by_type": serde_json::to_value(&l.cc.entry_points_by_type).unwrap()}),
+            );
             return pr::shard("", &seg, &lay, &canon, &ep, &cst, &ver);
         }
         Outcome::Panic(m) => {
-            fail("base", format!("compiling the checked-in class panics: {m}"), "base-panic", json!({}));
+            fail("base", format!("compiling the class panics: {m}"), "base-panic", json!({"source": l.origin, "contract": l.name}));
             return pr::shard("", &seg, &lay, &canon, &ep, &cst, &ver);
         }
     };
@@ -853,7 +864,7 @@ pub fn class_shard(
         let out = run_impl(&v.cc, program, v.sv, v.pythonic, v.max);
         let vname = format!("{} (max={}, sierra {}.{}, pythonic={})", v.kind, v.max, v.sv.major, v.sv.minor, v.pythonic);
         let replay = |o: &Outcome| {
-            json!({"class_json": format!("{}/{}.contract_class.json", crate::TEST_DATA, l.name),
+            json!({"class_json": l.origin.clone(),
                    "variation": v.kind, "max_bytecode_size": v.max,
                    "sierra_version": format!("{}.{}.{}", v.sv.major, v.sv.minor, v.sv.patch),
                    "entry_points_by_type": serde_json::to_value(&v.cc.entry_points_by_type).unwrap(),
@@ -1071,7 +1082,7 @@ pub fn canon_probe_shard(
                             f.fingerprint = "noncanonical-word-negative-multiple-of-P".into();
                         }
                         f.detail = json!({
-                            "class_json": format!("{}/{}.contract_class.json", crate::TEST_DATA, l.name),
+                            "class_json": l.origin.clone(),
                             "how": "cc = serde_json::from_str(class_json); ex = cc.extract_sierra_program(false); \
                                     ex.program.libfunc_declarations[decl].long_id = ConcreteLibfuncLongId{generic_id: \"felt252_const\", generic_args: [Value(value)]}; \
                                     CasmContractClass::from_contract_class(cc, ex, false, usize::MAX)",
